@@ -157,4 +157,11 @@ def check(ctx, R):
     R.run("C15.p", lambda R, c: preds.rule(R, c, "C15.p", ["branch_is_deleted", "flags_check"]), ctx)
     R.run("C15.p", lambda R, c: preds.flag_table(R, c, "C15.p"), ctx)
     R.run("C15.g", rule_g, ctx)
+    from . import shared
+    R.run("C15.h", lambda R, c: shared.api_delegations(
+        R, c, "C15.h", shared.GC_DELEGATIONS,
+        "R-PROV the collector's entry points: collect marks within the transaction's own delete set (no merge list) and then collects; "
+        "collect_all marks everything when no scope is given and otherwise within the caller's delete set, recording merge candidates; "
+        "mark files the id under its own client with its own clock; mark_all hands an item to Item::gc (parent_gc = false) only when "
+        "it is deleted"), ctx)
     return {}
